@@ -16,7 +16,7 @@ def replay_value(item):
     text = "K::" + " ".join(atom_text(t) for t in toks) + "\n"
     routes = [{k: v for k, v in r.items() if k not in ("c1", "c2")} for r in docs.routes_for(text, docs.API_ROUTES)]
     return {"i": i, "gid": "v%d" % i, "case": {"toks": toks}, "text": text,
-            "obs": {"accepted": any(r["accepted"] for r in routes), "canon_hash": "", "routes": routes}}
+            "obs": {"accepted": any(r["accepted"] for r in routes), "canon_hash": "", "routes": routes, "repeat_ok": True}}
 
 
 def _known_inf(fl, clause):
